@@ -144,7 +144,7 @@ func runC17(p *Program, r *Report) {
 			}
 		}
 	}
-	if nStore < 3 {
+	if nStore < 1 {
 		broken("R-C17-1: only %d storeIAM call sites found", nStore)
 	}
 
